@@ -1274,36 +1274,35 @@ impl Interpreter {
                     if let Some((status, result)) = promise_status {
                         let result_value = result.unwrap_or(JsValue::Undefined);
 
-                        match status {
-                            PromiseStatus::Fulfilled => {
-                                let vm_guard = self.heap.create_guard();
-                                let mut vm = BytecodeVM::from_saved_state(
-                                    ctx.state,
-                                    JsValue::Object(self.global.clone()),
-                                    vm_guard,
-                                    &self.heap,
-                                );
-                                vm.set_resume_value(ctx.resume_register, result_value);
+                        if status == PromiseStatus::Pending {
+                            // Re-add to wait graph (should not happen for ready contexts)
+                            self.wait_graph.add_context(ctx);
+                        } else {
+                            // The saved state keeps the awaited promise alive. Once the state is
+                            // handed to the VM the context's own handle must not outlive it.
+                            let SuspendedContext {
+                                state: saved_state,
+                                waiting_on,
+                                resume_register,
+                                ..
+                            } = ctx;
+                            drop(waiting_on);
+
+                            let vm_guard = self.heap.create_guard();
+                            let mut vm = BytecodeVM::from_saved_state(
+                                saved_state,
+                                JsValue::Object(self.global.clone()),
+                                vm_guard,
+                                &self.heap,
+                            );
+                            if status == PromiseStatus::Fulfilled {
+                                vm.set_resume_value(resume_register, result_value);
                                 self.active_vm = Some(Box::new(vm));
-                            }
-                            PromiseStatus::Rejected => {
-                                let vm_guard = self.heap.create_guard();
-                                let mut vm = BytecodeVM::from_saved_state(
-                                    ctx.state,
-                                    JsValue::Object(self.global.clone()),
-                                    vm_guard,
-                                    &self.heap,
-                                );
-                                if vm.inject_exception(self, result_value.clone()) {
-                                    self.active_vm = Some(Box::new(vm));
-                                } else {
-                                    let guarded = Guarded::from_value(result_value, &self.heap);
-                                    return Err(JsError::thrown(guarded));
-                                }
-                            }
-                            PromiseStatus::Pending => {
-                                // Re-add to wait graph (should not happen for ready contexts)
-                                self.wait_graph.add_context(ctx);
+                            } else if vm.inject_exception(self, result_value.clone()) {
+                                self.active_vm = Some(Box::new(vm));
+                            } else {
+                                let guarded = Guarded::from_value(result_value, &self.heap);
+                                return Err(JsError::thrown(guarded));
                             }
                         }
                     }
